@@ -176,6 +176,10 @@ func runC18(p *P, r *R) {
 	c18WriteLoop(p, r)
 	c18Window(p, r, "R18.4")
 	epollDemux(p, r, "R18.7")
+	// R18.8 a closed connection's descriptor stays open until the event loop is done with the current batch (it is
+	// deregistered and closed by the posted function): otherwise a new connection can reuse the number and the stale
+	// event of the old one reads the new one's bytes (shared with C14 R14.4)
+	borrow(p, r, "C14", runC14, map[string]string{"R14.4": "R18.8"}, func(o Ob) bool { return constructHas(o, "deferredClose") })
 	// the window handed to the callback is only valid until commitRead: nothing may retain it
 	noEscapeOfEventBuffer(p, r, "R18.6")
 	c18Variants(p, r)
